@@ -388,9 +388,18 @@ func TestVerifC17LLTrace(t *testing.T) {
 			go func() { defer dwg.Done(); <-done; g.rzdone(id) }()
 		}
 		cwg.Wait()
-		// every client has hung up: the handlers close (accepted ones see EOF) ...
-		if !c17WaitGroup(&hwg, 60*time.Second) {
-			t.Fatalf("c17: trace %d: handlers did not finish", ti)
+		// every client has hung up: the handlers close (accepted ones see EOF) ...  (the acceptor may still
+		// pick up clients that hung up while waiting, so this polls a counter instead of a WaitGroup)
+		for i, quiet := 0, 0; quiet < 5; i++ {
+			if atomic.LoadInt32(&active) == 0 && (pin == nil || len(pin.q) == 0) {
+				quiet++
+			} else {
+				quiet = 0
+			}
+			if i > 300000 {
+				t.Fatalf("c17: trace %d: handlers did not finish", ti)
+			}
+			time.Sleep(200 * time.Microsecond)
 		}
 		// ... and with nothing open every resize completes; if one does not, the probe finds the listener stuck
 		c17WaitGroup(&dwg, c17Patience())
